@@ -350,27 +350,11 @@ impl LevelManifest {
 			}
 		}
 
-		// If we have multiple tables, check sequence continuity across all tables
-		if tables.len() > 1 {
-			for i in 0..tables.len() - 1 {
-				let current = &tables[i];
-				let next = &tables[i + 1];
-
-				// Check if sequence numbers maintain continuity
-				if let (Some(next_smallest), Some(current_largest)) =
-					(next.meta.smallest_seq_num, current.meta.largest_seq_num)
-				{
-					if next_smallest <= current_largest {
-						return Err(Error::LoadManifestFail(format!(
-							"Level {} tables have overlapping sequence numbers: Table {} ({:?}-{:?}) and Table {} ({:?}-{:?})",
-							level_idx,
-							current.id, current.meta.smallest_seq_num, current.meta.largest_seq_num,
-							next.id, next.meta.smallest_seq_num, next.meta.largest_seq_num
-						)));
-					}
-				}
-			}
-		}
+		// Tables of a level above L0 are ordered by key range, not by sequence
+		// number: compaction writes them per key range, so a table further right
+		// may well hold older sequence numbers. Key-range ordering is checked
+		// where it matters (lookups); sequence ranges carry no cross-table order.
+		let _ = level_idx;
 
 		Ok(())
 	}
